@@ -68,6 +68,7 @@ namespace K
 @[simp] theorem sin32_real (x : ℝ) : KOps.sin32 x = Real.sin x := rfl
 @[simp] theorem cos32_real (x : ℝ) : KOps.cos32 x = Real.cos x := rfl
 @[simp] theorem isFinite_real (x : ℝ) : KOps.isFinite x = true := rfl
+@[simp] theorem satU64_real (n : ℕ) : KOps.satU64 (α := ℝ) n = n := rfl
 
 @[simp] theorem feq_real (x y : ℝ) : feq x y = decide (x = y) := by
   unfold feq
